@@ -59,6 +59,18 @@ func Replay(p *Program, repoDir, path, work string) int {
 	}
 	cfg := &CheckConfig{Property: rec.Property, Tier: "quick", WorkDir: work, Timeout: 10, Jobs: 8}
 	rep := p.CheckFunction(fn, cfg)
+	if strings.HasSuffix(rec.Obligation, "#contract-binding") {
+		if rep.Err != "" {
+			fmt.Println("  current tree: the contract still does not bind to the code:", rep.Err)
+			return 1
+		}
+		fmt.Println("  current tree: the contract binds (all obligations of the function are generated)")
+		return 0
+	}
+	if strings.HasSuffix(rec.Obligation, "#bounded:unchecked-safety") {
+		// the generated enumeration test is stored next to the record
+		return replayGoTest(repoDir, strings.TrimSuffix(path, ".json")+".witness_test.go.txt", work)
+	}
 	if rep.Err != "" {
 		fmt.Println("  current tree: engine error:", rep.Err)
 		return 2
@@ -114,7 +126,7 @@ func replayGoTest(repoDir, path, work string) int {
 	ov := filepath.Join(work, "overlay.json")
 	ovData, _ := json.Marshal(map[string]map[string]string{"Replace": {target: abs}})
 	_ = os.WriteFile(ov, ovData, 0o644)
-	cmd := exec.Command("go", "test", "-overlay", ov, "-vet=off", "-count=1", "-timeout", "120s", "-run", "Replay|Seed|seed|ZZ", "./"+strings.TrimPrefix(pkgDir, "luahelper-lsp/"))
+	cmd := exec.Command("go", "test", "-overlay", ov, "-vet=off", "-count=1", "-timeout", "120s", "-run", "Replay|Seed|seed|ZZ|LhvWitness", "./"+strings.TrimPrefix(pkgDir, "luahelper-lsp/"))
 	cmd.Dir = filepath.Join(repoDir, "luahelper-lsp")
 	cmd.Env = append(os.Environ(), "GOFLAGS=-mod=mod", "GOPROXY=off", "GOSUMDB=off", "GOTOOLCHAIN=local")
 	out, err := cmd.CombinedOutput()
